@@ -4,12 +4,24 @@
    follows, for every buffer, position, budget and flag word with PARSE_ZLIB_HEADER - and the
    rejection criterion is exactly the RFC's (through the regenerated validate_zlib_header).
    The general soundness statement (Done => the specification accepts, DESIGN.md 4.2) is open
-   and decided per explored run by the extracted specification. *)
-From Coq Require Import NArith ZArith Bool.
+   and decided per explored run by the extracted specification.
+   The converse clause (a proper prefix of a valid stream is never rejected as corrupt and never accepted)
+   is proved for streams of stored blocks, raw and zlib, under every schedule of input slices and output
+   budgets with more input announced (C04_prefix_of_stored_stream_partial).
+   Two of the format violations the property names are proved never to be accepted, under every schedule of
+   input slices and output budgets, when they follow any number of valid non-final stored blocks: the
+   reserved block type 3 (C04_reserved_block_type_never_accepted_partial) and a stored block whose NLEN is not
+   the complement of LEN (C04_stored_length_check_never_accepted_partial): the loop returns, delivers a
+   prefix of the valid blocks' payload, and its status is HasMoreOutput, NeedsMoreInput (input outstanding)
+   or Failed with exactly that payload delivered - never Done. *)
+From Coq Require Import NArith ZArith Bool List Lia.
 From MZ.lib Require Import Arr Mach.
 From MZ.model Require Import InflateCore.
 From MZ.spec Require Zlib.
-From MZ.proofs Require Import InflateBasic InflateZlib.
+From MZ.spec Require Import Adler.
+From MZ.spec Require DeflateSpec.
+From MZ.proofs Require Import InflateBasic InflateZlib StoredSpec InflateStoredChunks InflateStoredTotal InflateStoredReject.
+Import ListNotations.
 Local Open Scope N_scope.
 
 Theorem C04_bad_zlib_header_never_accepted :
@@ -36,3 +48,79 @@ Proof. exact header_rejected_spec. Qed.
 (* non-vacuity *)
 Example C04_header_789d_rejected : header_rejected 120 157 5 USIZE_MAX = true.
 Proof. vm_compute. reflexivity. Qed.
+
+(* what has been offered is a PROPER prefix of the stream: whatever the schedule, the loop returns and the
+   status is NeedsMoreInput or HasMoreOutput - not Failed, not Done - with a prefix of the payload delivered *)
+Theorem C04_prefix_of_stored_stream_partial :
+  forall flags zl cmf flg A chunks last sched later o,
+  has flags F_ZLIB = zl -> has flags F_STOPBB = false -> has flags F_NONWRAP = true -> has flags F_MORE = true ->
+  cmf < 256 -> flg < 256 -> Zlib.valid_header (Z.of_N cmf) (Z.of_N flg) = true -> A < 2 ^ 32 ->
+  chunks_ok chunks -> bytes_ok last -> N.of_nat (length last) <= 65535 ->
+  let data := concat chunks ++ last in
+  let stream := (if zl then [cmf; flg] else []) ++ stored_stream chunks last ++ (if zl then be32 A else []) in
+  concat (map fst sched) ++ later = stream -> later <> [] ->
+  alen o <= USIZE_MAX -> N.of_nat (length (concat (map fst sched))) < 2 ^ 57 ->
+  exists s total o' p',
+  feed2 flags dec_default o 0 [] sched 0 NeedsMoreInput = Ret (s, total, o', p') /\
+  (s = NeedsMoreInput \/ s = HasMoreOutput) /\
+  p' <= N.of_nat (length data) /\ aget_list o' 0 p' = firstn (N.to_nat p') data.
+Proof.
+  intros flags zl cmf flg A chunks last sched later o HZ HSB HNW HM Hc Hf Hv HA Hck Hb Hl data stream Hcat Hlater Hrep Hsh.
+  assert (Hlen : (length (concat (map fst sched)) + length later = length stream)%nat) by (rewrite <- Hcat, app_length; reflexivity).
+  assert (Hl0 : (0 < length later)%nat) by (destruct later; [contradiction|cbn [length]; lia]).
+  destruct zl.
+  - destruct (schedule_zlib_stored_stream flags cmf flg A chunks last [] sched later o HZ HSB HNW HM Hc Hf Hv HA Hck Hb Hl
+                ltac:(rewrite Hcat; unfold stream; cbn [app]; rewrite <- !app_assoc, !app_nil_r; reflexivity) Hrep Hsh)
+      as (s & t & o' & p' & H & H1 & H2 & H3 & H4).
+    exists s, t, o', p'. split; [exact H|]. split; [|split; assumption].
+    destruct H4 as [H4|[[H4 _]|(_ & _ & H4)]]; [right; exact H4|left; exact H4|].
+    exfalso. unfold stream in Hlen. cbn [app length] in Hlen, H4. rewrite !app_length in *. lia.
+  - destruct (schedule_raw_stored_stream flags chunks last [] sched later o HZ HSB HNW HM Hck Hb Hl
+                ltac:(rewrite Hcat; unfold stream; cbn [app]; rewrite !app_nil_r; reflexivity) Hrep Hsh)
+      as (s & t & o' & p' & H & H1 & H2 & H3 & H4).
+    exists s, t, o', p'. split; [exact H|]. split; [|split; assumption].
+    destruct H4 as [H4|[[H4 _]|(_ & _ & H4)]]; [right; exact H4|left; exact H4|].
+    exfalso. unfold stream in Hlen. cbn [app length] in Hlen. rewrite !app_length in *. cbn [length] in Hlen. lia.
+Qed.
+
+Theorem C04_reserved_block_type_never_accepted_partial :
+  forall flags zl cmf flg chunks hb junk sched later o,
+  has flags F_ZLIB = zl -> has flags F_STOPBB = false -> has flags F_NONWRAP = true -> has flags F_MORE = true ->
+  cmf < 256 -> flg < 256 -> Zlib.valid_header (Z.of_N cmf) (Z.of_N flg) = true ->
+  chunks_ok chunks -> hb < 256 -> N.land (N.shiftr hb 1) 3 = 3 ->
+  concat (map fst sched) ++ later = (if zl then [cmf; flg] else []) ++ encN chunks ++ hb :: junk ->
+  alen o <= USIZE_MAX -> N.of_nat (length (concat (map fst sched))) < 2 ^ 57 ->
+  exists s total o' p',
+  feed2 flags dec_default o 0 [] sched 0 NeedsMoreInput = Ret (s, total, o', p') /\
+  p' <= N.of_nat (length (concat chunks)) /\ aget_list o' 0 p' = firstn (N.to_nat p') (concat chunks) /\
+  (s = HasMoreOutput \/ (s = NeedsMoreInput /\ later <> []) \/ (s = Failed /\ p' = N.of_nat (length (concat chunks)))).
+Proof. exact reserved_block_type_never_accepted. Qed.
+
+Theorem C04_stored_length_check_never_accepted_partial :
+  forall flags zl cmf flg chunks f l0 l1 n0 n1 junk sched later o,
+  has flags F_ZLIB = zl -> has flags F_STOPBB = false -> has flags F_NONWRAP = true -> has flags F_MORE = true ->
+  cmf < 256 -> flg < 256 -> Zlib.valid_header (Z.of_N cmf) (Z.of_N flg) = true ->
+  chunks_ok chunks -> l0 < 256 -> l1 < 256 -> n0 < 256 -> n1 < 256 ->
+  (l0 + 256 * l1) + (n0 + 256 * n1) <> 65535 ->
+  concat (map fst sched) ++ later = (if zl then [cmf; flg] else []) ++ encN chunks ++ DeflateSpec.b2n f :: l0 :: l1 :: n0 :: n1 :: junk ->
+  alen o <= USIZE_MAX -> N.of_nat (length (concat (map fst sched))) < 2 ^ 57 ->
+  exists s total o' p',
+  feed2 flags dec_default o 0 [] sched 0 NeedsMoreInput = Ret (s, total, o', p') /\
+  p' <= N.of_nat (length (concat chunks)) /\ aget_list o' 0 p' = firstn (N.to_nat p') (concat chunks) /\
+  (s = HasMoreOutput \/ (s = NeedsMoreInput /\ later <> []) \/ (s = Failed /\ p' = N.of_nat (length (concat chunks)))).
+Proof. exact stored_length_check_never_accepted. Qed.
+
+(* non-vacuity: one valid block "abc", then (1) LEN = 2 with NLEN = 0xFFFC, (2) a header byte 7 (final, type 3);
+   fed one byte per call with a budget of 2 bytes, then calls with no new input *)
+Example C04_bad_blocks_are_rejected :
+  let good := encN [[97; 98; 99]] in
+  let bad1 := good ++ [1; 2; 0; 252; 255; 9; 9] in
+  let bad2 := good ++ [7; 9; 9] in
+  let sched l := map (fun b => ([b], 2)) l ++ repeat ([], 2) 4 in
+  match feed2 6 dec_default (amake 8 0) 0 [] (sched bad1) 0 NeedsMoreInput,
+        feed2 6 dec_default (amake 8 0) 0 [] (sched bad2) 0 NeedsMoreInput with
+  | Ret (s1, _, o1, p1), Ret (s2, _, o2, p2) =>
+      s1 = Failed /\ p1 = 3 /\ aget_list o1 0 3 = [97; 98; 99] /\ s2 = Failed /\ p2 = 3
+  | _, _ => False
+  end.
+Proof. vm_compute. repeat split; reflexivity. Qed.
